@@ -592,4 +592,172 @@ theorem new_sub_spec {a b : F64} (ha : a.is_finite = true) (hb : b.is_finite = t
   have h := new_sub_words ha hb hwa hwb hA hB
   exact eft_package h.1 h.2 (new_sub_WF a b).1 (new_sub_WF a b).2
 
+/-! ## T3' — 2Prod: `new_mul` -/
+
+/-- the rounding error of a number with at most 106 significant bits above `2^k` is representable -/
+theorem rep_rn53_err_of_dvd {Q k : Nat} (hd : 2 ^ k ∣ Q) (hQ : Q < 2 ^ 106 * 2 ^ k) :
+    Rep (((rn53 Q : Nat) : Int) - (Q : Int)).natAbs := by
+  apply rep_natAbs_of_dvd_of_le (k := k) (rn53_sub_dvd hd)
+  have h1 := rn53_abs_err Q
+  have h3 : Q < 2 ^ 53 * 2 ^ (53 + k) := by
+    rw [Nat.pow_add, ← Nat.mul_assoc]; exact hQ
+  have h5 := Nat.pow_le_pow_right (show 0 < 2 by decide) (log2_sub_le h3)
+  have h6 : ((2 ^ (Nat.log2 Q - 52) : Nat) : Int) ≤ 2 ^ 53 * 2 ^ k := by
+    rw [Nat.pow_add] at h5; exact_mod_cast h5
+  have := abs_nonneg (((rn53 Q : Nat) : Int) - (Q : Int))
+  omega
+
+theorem repI_sub_rnI_of_dvd {Q : Int} {k : Nat} (hd : 2 ^ k ∣ Q.natAbs)
+    (hlt : Q.natAbs < 2 ^ 106 * 2 ^ k) : RepI (Q - rnI Q) := by
+  have h := rep_rn53_err_of_dvd hd hlt
+  have e : (Q - rnI Q).natAbs = (((rn53 Q.natAbs : Nat) : Int) - (Q.natAbs : Int)).natAbs := by
+    have := congrArg Int.natAbs (abs_rnI_sub Q)
+    rw [Int.natAbs_abs, Int.natAbs_abs] at this
+    rw [← this, ← Int.natAbs_neg]; congr 1; ring
+  unfold RepI; rw [e]; exact h
+
+/-- the product of two representable numbers above `2^L` (`L ≥ U + 106`) is a multiple of `2^U`, and the
+quotient has at most 106 significant bits -/
+theorem mul_quot_exists {A B U L : Nat} (hA : Rep A) (hB : Rep B) (hUL : 106 + U ≤ L)
+    (hlow : 2 ^ L ≤ A * B) : ∃ Q k, A * B = Q * 2 ^ U ∧ 2 ^ k ∣ Q ∧ Q < 2 ^ 106 * 2 ^ k := by
+  obtain ⟨ma, ea, hma, rfl⟩ := (rep_iff_exists A).1 hA
+  obtain ⟨mb, eb, hmb, rfl⟩ := (rep_iff_exists B).1 hB
+  have hN : ma * 2 ^ ea * (mb * 2 ^ eb) = ma * mb * 2 ^ (ea + eb) := by rw [Nat.pow_add]; ring
+  have hm : ma * mb < 2 ^ 106 := by
+    have : ma * mb < 2 ^ 53 * 2 ^ 53 := Nat.mul_lt_mul'' hma hmb
+    have e : (2 : Nat) ^ 53 * 2 ^ 53 = 2 ^ 106 := by norm_num
+    omega
+  have he : U ≤ ea + eb := by
+    by_contra hc
+    have h1 : 2 ^ (ea + eb) ≤ 2 ^ U := Nat.pow_le_pow_right (by decide) (by omega)
+    have h2 : 2 ^ 106 * 2 ^ U ≤ 2 ^ L := by
+      rw [← Nat.pow_add]; exact Nat.pow_le_pow_right (by decide) hUL
+    have h3 : ma * mb * 2 ^ (ea + eb) < 2 ^ 106 * 2 ^ U := by
+      calc ma * mb * 2 ^ (ea + eb) ≤ ma * mb * 2 ^ U := Nat.mul_le_mul_left _ h1
+        _ < 2 ^ 106 * 2 ^ U := Nat.mul_lt_mul_of_pos_right hm (Nat.two_pow_pos U)
+    rw [hN] at hlow; omega
+  refine ⟨ma * mb * 2 ^ (ea + eb - U), ea + eb - U, ?_, Nat.dvd_mul_left _ _, ?_⟩
+  · have e : 2 ^ (ea + eb) = 2 ^ (ea + eb - U) * 2 ^ U := by
+      rw [← Nat.pow_add]; congr 1; omega
+    rw [hN, e]; ring
+  · exact Nat.mul_lt_mul_of_pos_right hm (Nat.two_pow_pos _)
+
+theorem new_mul_eq (a b : F64) :
+    TwoFloat.new_mul a b =
+      { hi := F64.mul a b, lo := F64.fma a b (F64.neg (F64.mul a b)) } := rfl
+
+theorem new_mul_WF (a b : F64) : (TwoFloat.new_mul a b).WF := ⟨mul_WF _ _, fma_WF _ _ _⟩
+
+/-- 2Prod, word level, from the abstract sufficient condition: the product is an exact multiple `Q·2^1074`
+of the unit, `RN(Q)` is in range, and the rounding error `Q - RN(Q)` is representable -/
+theorem new_mul_words_of {a b : F64} (ha : a.is_finite = true) (hb : b.is_finite = true) {Q : Int}
+    (hQ : a.toInt * b.toInt = Q * (unit : Int)) (hov : rn53 Q.natAbs ≤ maxFin)
+    (hr : RepI (Q - rnI Q)) :
+    IsVal (TwoFloat.new_mul a b).hi (rnI Q) ∧ IsVal (TwoFloat.new_mul a b).lo (Q - rnI Q) := by
+  rw [new_mul_eq]
+  have e1 : rqI (a.toInt * b.toInt) unit = rnI Q := by rw [hQ, rqI_mul_right _ unit_pos]
+  have hp : IsVal (F64.mul a b) (rnI Q) := by
+    have := mul_spec ha hb (by rw [← natAbs_rqI, e1, natAbs_rnI]; exact hov)
+    rwa [e1] at this
+  have hnp := hp.neg
+  have hq : a.toInt * b.toInt + (F64.neg (F64.mul a b)).toInt * (unit : Int)
+      = (Q - rnI Q) * (unit : Int) := by rw [hnp.2, hQ]; ring
+  have hbound : |Q - rnI Q| ≤ (maxFin : Int) := by
+    rw [abs_sub_comm, abs_rnI_sub]
+    have h1 := rn53_rel_err Q.natAbs
+    have h2 := le_two_mul_rn53 Q.natAbs
+    generalize maxFin = M at hov ⊢
+    omega
+  exact ⟨hp, fma_exact ha hb hnp.1 hq hr hbound⟩
+
+theorem two_pow_2097_le_maxFin : 2 ^ 2097 ≤ maxFin := by
+  rw [maxFin_eq]
+  have e : (2 : Nat) ^ 2097 = 2 ^ 52 * 2 ^ 2045 := by rw [← Nat.pow_add]
+  rw [e]
+  exact Nat.mul_le_mul_right _ (by norm_num)
+
+/-- 2Prod, word level: when the exact product is `0`, or `2^-960 ≤ |a·b| < 2^1023` (in the units `2^-2148`
+of `toInt a * toInt b`: `2^1188 ≤ |·| < 2^3171`), the product is `Q·2^1074` for an integer `Q`, the high word
+is `RN(Q)` and the low word is `Q - RN(Q)`, both finite. -/
+theorem new_mul_words {a b : F64} (ha : a.is_finite = true) (hb : b.is_finite = true)
+    (hwa : a.WF) (hwb : b.WF)
+    (h : a.toInt * b.toInt = 0 ∨
+      ((2 : Int) ^ 1188 ≤ |a.toInt * b.toInt| ∧ |a.toInt * b.toInt| < (2 : Int) ^ 3171)) :
+    ∃ Q : Int, a.toInt * b.toInt = Q * (unit : Int) ∧
+      IsVal (TwoFloat.new_mul a b).hi (rnI Q) ∧ IsVal (TwoFloat.new_mul a b).lo (Q - rnI Q) := by
+  rcases h with h0 | ⟨hlo, hhi⟩
+  · refine ⟨0, by rw [h0, Int.zero_mul], ?_⟩
+    exact new_mul_words_of ha hb (by rw [h0, Int.zero_mul])
+      (by rw [Int.natAbs_zero, rn53_zero]; exact Nat.zero_le _) (by simpa using repI_zero)
+  · have hN : (a.toInt * b.toInt).natAbs = a.toInt.natAbs * b.toInt.natAbs := Int.natAbs_mul _ _
+    have hlo' : 2 ^ 1188 ≤ a.toInt.natAbs * b.toInt.natAbs := by
+      rw [← hN]; rw [← Int.natCast_natAbs] at hlo; exact_mod_cast hlo
+    have hhi' : a.toInt.natAbs * b.toInt.natAbs < 2 ^ 3171 := by
+      rw [← hN]; rw [← Int.natCast_natAbs] at hhi; exact_mod_cast hhi
+    obtain ⟨Q0, k, hQ0, hd, hlt⟩ :=
+      mul_quot_exists (U := 1074) (L := 1188) hwa.repI hwb.repI (by norm_num) hlo'
+    have hP0 : a.toInt * b.toInt ≠ 0 := by
+      intro h0
+      rw [h0, abs_zero] at hlo
+      have : (0 : Int) < 2 ^ 1188 := by positivity
+      omega
+    have hQ : a.toInt * b.toInt = (Int.sign (a.toInt * b.toInt) * (Q0 : Int)) * (unit : Int) := by
+      rw [← unit_eq] at hQ0
+      conv_lhs => rw [← Int.sign_mul_natAbs (a.toInt * b.toInt), hN, hQ0]
+      push_cast; ring
+    have hQabs : (Int.sign (a.toInt * b.toInt) * (Q0 : Int)).natAbs = Q0 := by
+      rw [Int.natAbs_mul, Int.natAbs_sign_of_ne_zero hP0, Nat.one_mul, Int.natAbs_natCast]
+    have hQlt : Q0 < 2 ^ 2097 := by
+      have e : (2 : Nat) ^ 3171 = 2 ^ 2097 * 2 ^ 1074 := by rw [← Nat.pow_add]
+      rw [hQ0, e] at hhi'
+      exact Nat.lt_of_mul_lt_mul_right hhi'
+    refine ⟨_, hQ, new_mul_words_of ha hb hQ ?_ ?_⟩
+    · rw [hQabs]
+      exact Nat.le_trans (rn53_le_pow (Nat.le_of_lt hQlt)) two_pow_2097_le_maxFin
+    · apply repI_sub_rnI_of_dvd (k := k)
+      · rw [hQabs]; exact hd
+      · rw [hQabs]; exact hlt
+
+/-- **T3' (2Prod).**  `hi` is the correctly rounded product, `hi + lo = a·b` exactly (`V·2^1074 = toInt a · toInt b`),
+and the pair is valid. -/
+theorem new_mul_spec {a b : F64} (ha : a.is_finite = true) (hb : b.is_finite = true)
+    (hwa : a.WF) (hwb : b.WF)
+    (h : a.toInt * b.toInt = 0 ∨
+      ((2 : Int) ^ 1188 ≤ |a.toInt * b.toInt| ∧ |a.toInt * b.toInt| < (2 : Int) ^ 3171)) :
+    (TwoFloat.new_mul a b).hi.toInt = rqI (a.toInt * b.toInt) unit ∧
+    (TwoFloat.new_mul a b).V * (unit : Int) = a.toInt * b.toInt ∧
+    (TwoFloat.new_mul a b).Valid ∧ (TwoFloat.new_mul a b).WF := by
+  obtain ⟨Q, hQ, hh, hl⟩ := new_mul_words ha hb hwa hwb h
+  obtain ⟨p1, p2, p3, p4⟩ := eft_package hh hl (new_mul_WF a b).1 (new_mul_WF a b).2
+  refine ⟨?_, by rw [p2, hQ], p3, p4⟩
+  rw [p1, hQ, rqI_mul_right _ unit_pos]
+
+/-! ## the magnitude hypothesis `|x| < 2^1023` -/
+
+/-- a representable magnitude below `2^1023` (scaled: `2^2097`) is at most `maxFin / 2` -/
+theorem two_mul_le_maxFin_of_lt {A : Nat} (hA : Rep A) (h : A < 2 ^ 2097) : 2 * A ≤ maxFin := by
+  rw [maxFin_eq]
+  have e1 : (2 : Nat) ^ 2097 = 2 ^ 53 * 2 ^ 2044 := by rw [← Nat.pow_add]
+  have e2 : (2 : Nat) ^ 2045 = 2 ^ 2044 * 2 := by rw [← Nat.pow_succ]
+  rw [e1] at h; rw [e2]
+  rcases Nat.lt_or_ge A (2 ^ 52 * 2 ^ 2044) with h1 | h1
+  · generalize (2 : Nat) ^ 2044 = E at *
+    omega
+  · have hd := hA.dvd_of_le h1
+    generalize (2 : Nat) ^ 2044 = E at *
+    obtain ⟨j, hj0⟩ := hd
+    rw [hj0] at h ⊢
+    have hj : j < 2 ^ 53 := by
+      apply Nat.lt_of_mul_lt_mul_left (a := E)
+      rw [Nat.mul_comm _ (2 ^ 53)]; exact h
+    have := Nat.mul_le_mul_right E (show j ≤ 2 ^ 53 - 1 by omega)
+    rw [Nat.mul_comm E j]
+    omega
+
+theorem WF.two_mul_abs_le {x : F64} (hw : x.WF) (h : x.toInt.natAbs < 2 ^ 2097) :
+    2 * |x.toInt| ≤ (maxFin : Int) := by
+  have := two_mul_le_maxFin_of_lt hw.repI h
+  rw [← Int.natCast_natAbs]
+  exact_mod_cast this
+
 end F64
